@@ -171,6 +171,10 @@ func (c13) Gen(r *sim.Rand, tier string, run uint64) *sim.Scenario {
 	if r.Chance(1, 4) {
 		// the last device re-enters the bus on every access (reads one byte somewhere else)
 		sc.Cfg["reenter"] = region + int64(r.Intn(0x10000))
+	} else if r.Chance(1, 4) {
+		// the last device is a bank-switching register: a write to it attaches device (value
+		// mod ndev) over a 16-byte window, from inside the Write callback
+		sc.Cfg["banksw"] = (region + int64(r.Intn(0x10000))) &^ 0xF
 	}
 	return sc
 }
@@ -237,6 +241,18 @@ func (c13) Exec(sc *sim.Scenario, env *sim.Env) *sim.Violation {
 			}
 			nested = false
 			st.Probe("device_reentered_the_bus")
+		}
+	}
+	bankWin := uint32(sc.C("banksw")) & 0xFFFFF0
+	bankPending := int8(-1)
+	if bankWin != 0 && ndev > 0 {
+		d := devs[ndev-1]
+		d.OnWrite = func(_ uint32, v byte) {
+			to := int(v) % ndev
+			if p, _ := sim.RecoverLib(func() { _ = b.Attach(devs[to], "bank", bankWin, bankWin+15) }); !p {
+				bankPending = int8(to)
+			}
+			st.Probe("attach_from_write_callback")
 		}
 	}
 	nreal := int(sc.C("realmem"))
@@ -546,6 +562,14 @@ func (c13) Exec(sc *sim.Scenario, env *sim.Env) *sim.Violation {
 			}
 			if p {
 				return &sim.Violation{Oracle: "access_panic", Step: i, Msg: fmt.Sprintf("%s at attached address %06x (device %d) panicked: %s", op.K, a, own, sim.PanicString(pv))}
+			}
+			if bankPending >= 0 {
+				// the register's Write callback re-attached the bank window: from now on it
+				// belongs to that device
+				owner[bankWin>>4] = bankPending
+				useReal[bankWin>>4] = false
+				bankPending = -1
+				nontrivial = true
 			}
 			if useReal[a>>4] {
 				// the library's own memory: no access log, the stored bytes are the witness
